@@ -1,4 +1,5 @@
 import Abasic.Interp
+import Abasic.Proofs.Transparency
 /-
   C07 — break and CONT are transparent to the interrupted program.
 
@@ -41,9 +42,233 @@ theorem break_cont (σ : St F) (n i : Nat) (hloc : σ.loc = { line := some n, id
   cases σ
   simp_all
 
+/-! ### the CONT turn -/
+
+/-- `maybe_process_command` on a CONT line, breakpoint pending: restore the
+    cursor, then run one statement. -/
+theorem cont_process (fuel : Nat) (line : Str) (σ : St F) (n i : Nat)
+    (hbp : σ.bp = some (n, i))
+    (hcmd : (commandWord line).bind Command.ofWord = some .cont) :
+    maybeProcessCommand fuel line σ =
+      (do runNextStatement fuel; pure true)
+        { σ with imm := [], loc := { line := some n, idx := i }, bp := none } := by
+  simp only [maybeProcessCommand, hcmd, bind, M.bindM, cont_restores σ n i hbp]
+
+/-- **cont_command.**  The CONT command entered at the prompt of an idle
+    interpreter with a pending breakpoint `(n, i)`: the whole turn is "run the
+    next statement" from the state whose cursor is back at the breakpoint, the
+    breakpoint cleared and the immediate line emptied — nothing else differs
+    (in particular the subroutine stack is kept, because a breakpoint is
+    pending when the immediate line is reset). -/
+theorem cont_command (fuel : Nat) (line : Str) (σ : St F) (n i : Nat)
+    (hidle : σ.state = .idle) (hbp : σ.bp = some (n, i))
+    (hcmd : (commandWord line).bind Command.ofWord = some .cont) :
+    evaluateImpl fuel line σ =
+      (do runNextStatement fuel; pure ())
+        { σ with imm := [], loc := { line := some n, idx := i }, bp := none } := by
+  have hset : setImmediate [] σ = .ok () { σ with imm := [], loc := {} } := by
+    simp [setImmediate, M.modify, St.setImmediate, hbp]
+  have hp := cont_process fuel line ({ σ with imm := [], loc := {} } : St F) n i hbp hcmd
+  have hne : (σ.state != .idle) = false := by simp [hidle]
+  simp only [evaluateImpl, bind, M.bindM, M.get, hne, Bool.false_eq_true, if_false, hset, hp]
+  generalize runNextStatement fuel
+    ({ σ with imm := [], loc := { line := some n, idx := i }, bp := none } : St F) = r
+  cases r <;> rfl
+
+/-- The command word of the line `CONT` is CONT. -/
+theorem cont_word : (commandWord "CONT".toList).bind Command.ofWord = some .cont := by decide
+
+/-- **break_cont_turn** (precise form).  For a running interpreter at a numbered
+    location with no breakpoint pending, breaking in and then entering `CONT`
+    is `postprocess (runNextStatement fuel)` — i.e. exactly the body of
+    `continueEvaluating fuel` — started from a state that differs from `σ`
+    only in the BREAK record prepended to `out` and the emptied (dead)
+    immediate line; `continueEvaluating fuel σ` is the same computation started
+    from `σ` itself.  (The `idle` state set by the break is overwritten by the
+    first action of `runNextStatement`.) -/
+theorem break_cont_turn (fuel : Nat) (σ : St F) (n i : Nat)
+    (hrun : σ.state = .running)
+    (hloc : σ.loc = { line := some n, idx := i }) (hbp : σ.bp = none) :
+    (do breakAtCurrentLocation; startEvaluating fuel "CONT".toList) σ =
+        postprocess (runNextStatement fuel) { σ with out := .brk (some n) :: σ.out, imm := [] } ∧
+    continueEvaluating fuel σ = postprocess (runNextStatement fuel) σ := by
+  constructor
+  · have hb := break_records σ n i hloc
+    have hc := cont_command fuel "CONT".toList
+      ({ σ with state := .idle, out := .brk (some n) :: σ.out, bp := some (n, i), imm := [], loc := {} } : St F)
+      n i rfl rfl cont_word
+    simp only [bind, M.bindM, hb, startEvaluating, postprocess, hc]
+    -- the state `idle` left by the break is overwritten by `runNextStatement`'s first action
+    have hst : ∀ s : St F, runNextStatement fuel s = runNextStatement fuel { s with state := .running } := by
+      intro s
+      simp only [runNextStatement, bind, M.bindM, M.modify]
+    rw [hst ({ σ with state := .idle, out := .brk (some n) :: σ.out, bp := none, imm := [], loc := { line := some n, idx := i } } : St F)]
+    have hs : ({ σ with state := .running, out := .brk (some n) :: σ.out, bp := none, imm := [], loc := { line := some n, idx := i } } : St F) =
+        { σ with out := .brk (some n) :: σ.out, imm := [] } := by
+      cases σ; simp_all
+    simp only [] at hs ⊢
+    rw [hs]
+    cases runNextStatement fuel ({ σ with out := .brk (some n) :: σ.out, imm := [] } : St F) <;> rfl
+  · have hne : (σ.state != .running) = false := by simp [hrun]
+    simp only [continueEvaluating, bind, M.bindM, M.get, hne, Bool.false_eq_true, if_false]
+
+/-! ### transparency of the whole turn (and of every later turn)
+
+  `break_cont_turn` reduces the question to: does `runNextStatement` care about
+  the BREAK record in `out` and about the contents of the immediate line?  It
+  does not — provided nothing points into the immediate line.  That proviso is
+  necessary: a program started by an immediate `GOSUB 100 : …` has a return
+  address in the immediate line, which the break erases
+  (`break_cont_not_transparent_in_general` below).  With the cursor, all return
+  addresses and all FOR loops in numbered lines (`numbered`), the two runs
+  agree on the outcome and on every component of the state except `out` and
+  `imm`; `out` differs by exactly the BREAK record, inserted where the break
+  happened. -/
+
+/-- every return address and every FOR loop start is in a numbered line -/
+def numbered (σ : St F) : Prop :=
+  σ.stack.all (fun f => f.ret.line.isSome) = true ∧ σ.loops.all (fun l => l.loc.line.isSome) = true
+
+/-- `s'` is `s` with `extra` inserted in the output queue just above the
+    records `base` that were already there; everything else but the immediate
+    line is the same -/
+def agreeModOut (base extra : List Out) (s s' : St F) : Prop :=
+  ∃ pre im', s.out = pre ++ base ∧ s' = { s with out := pre ++ extra ++ base, imm := im' }
+
+/-- same outcome (ok / the same error), states agreeing as above -/
+def sameModOut {α : Type} (base extra : List Out) : Res F α → Res F α → Prop
+  | .ok a s, .ok a' s' => a = a' ∧ agreeModOut base extra s s'
+  | .err e s, .err e' s' => e = e' ∧ agreeModOut base extra s s'
+  | _, _ => False
+
+omit [NumOps F] in
+theorem sameModOut_of_relRes {α : Type} (base extra : List Out) (r r' : Res F α)
+    (h : Proofs.Sim.RelRes base (extra ++ base) r r') : sameModOut base extra r r' := by
+  cases r <;> cases r' <;> simp only [Proofs.Sim.RelRes, sameModOut] at h ⊢
+  · obtain ⟨ha, pre, im', ho, hs, _⟩ := h
+    exact ⟨ha, pre, im', ho, by rw [hs, List.append_assoc]⟩
+  · obtain ⟨ha, pre, im', ho, hs, _⟩ := h
+    exact ⟨ha, pre, im', ho, by rw [hs, List.append_assoc]⟩
+
+/-- **break_cont_transparent.**  Running interpreter at a numbered location, no
+    breakpoint pending, nothing pointing into the immediate line.  Breaking in
+    and entering `CONT` has the same outcome as simply continuing: the same
+    result (ok, or the same error at the same location), and final states that
+    agree on every component except the immediate line and the output queue,
+    where the broken-into run has the one extra BREAK record — inserted below
+    everything the continued statement printed and above everything printed
+    before. -/
+theorem break_cont_transparent (fuel : Nat) (σ : St F) (n i : Nat)
+    (hrun : σ.state = .running)
+    (hloc : σ.loc = { line := some n, idx := i }) (hbp : σ.bp = none) (hnum : numbered σ) :
+    sameModOut σ.out [.brk (some n)]
+      (continueEvaluating fuel σ)
+      ((do breakAtCurrentLocation; startEvaluating fuel "CONT".toList) σ) := by
+  obtain ⟨h1, h2⟩ := break_cont_turn fuel σ n i hrun hloc hbp
+  rw [h1, h2]
+  apply sameModOut_of_relRes
+  refine (Proofs.Sim.sim_postprocess (Proofs.Sim.sim_runNextStatement fuel)).run σ _ ?_
+  exact ⟨[], [], rfl, rfl, Or.inr ⟨by rw [hloc]; rfl, hnum.1, hnum.2⟩⟩
+
+/-- … and the agreement persists: from related states (same everything but
+    `out`/`imm`, `out` differing by records inserted at a fixed depth, and
+    either the same immediate line or nothing pointing into it) every further
+    `continueEvaluating` and `provideInput` turn has the same outcome and again
+    related states.  (Instances of the general simulation theorem in
+    `Abasic/Proofs/Transparency.lean`.) -/
+theorem later_turns_agree (fuel : Nat) (base base' : List Out) (s s' : St F)
+    (h : Proofs.Sim.Rel base base' s s') :
+    Proofs.Sim.RelRes base base' (continueEvaluating fuel s) (continueEvaluating fuel s') ∧
+    ∀ text, Proofs.Sim.RelRes base base' (provideInput text s) (provideInput text s') :=
+  ⟨(Proofs.Sim.sim_continueEvaluating fuel).run s s' h,
+   fun text => (Proofs.Sim.sim_provideInput text).run s s' h⟩
+
+/-- The relation that `break_cont_transparent` establishes is the one
+    `later_turns_agree` consumes. -/
+theorem break_cont_related (fuel : Nat) (σ : St F) (n i : Nat)
+    (hrun : σ.state = .running)
+    (hloc : σ.loc = { line := some n, idx := i }) (hbp : σ.bp = none) (hnum : numbered σ) :
+    Proofs.Sim.RelRes σ.out (.brk (some n) :: σ.out)
+      (continueEvaluating fuel σ)
+      ((do breakAtCurrentLocation; startEvaluating fuel "CONT".toList) σ) := by
+  obtain ⟨h1, h2⟩ := break_cont_turn fuel σ n i hrun hloc hbp
+  rw [h1, h2]
+  refine (Proofs.Sim.sim_postprocess (Proofs.Sim.sim_runNextStatement fuel)).run σ _ ?_
+  exact ⟨[], [], rfl, rfl, Or.inr ⟨by rw [hloc]; rfl, hnum.1, hnum.2⟩⟩
+
+/-- the host's run loop: keep calling `continue_evaluating` while the
+    interpreter is running, at most `k` times -/
+def contTurns (fuel : Nat) : Nat → M F Unit
+  | 0 => pure ()
+  | k + 1 => do
+    let s ← M.get
+    if s.state == .running then do
+      continueEvaluating fuel
+      contTurns fuel k
+    else pure ()
+
+theorem sim_contTurns (fuel k : Nat) (base base' : List Out) :
+    Proofs.Sim.SimM (F := F) base base' (contTurns fuel k) := by
+  induction k with
+  | zero => exact Proofs.Sim.sim_pure _
+  | succ k ih =>
+    unfold contTurns
+    constructor
+    intro s s' h
+    refine Proofs.Sim.at_get_bind ?_
+    have hr := h
+    obtain ⟨pre, im', ho, rfl, hi⟩ := h
+    dsimp only
+    refine Proofs.Sim.at_ite ?_ (Proofs.Sim.at_pure _ hr)
+    exact Proofs.Sim.at_bind ((Proofs.Sim.sim_continueEvaluating fuel).run _ _ hr)
+      fun _ t t' ht => ih.run t t' ht
+
+/-- **break_cont_run_transparent.**  The whole rest of the run, not just the
+    interrupted statement: continuing for up to `k` further turns after
+    break + CONT gives the same outcome as continuing undisturbed for the same
+    number of turns — same result, same final state except for the immediate
+    line and the single BREAK record in the output queue (below everything
+    printed after the break, above everything printed before). -/
+theorem break_cont_run_transparent (fuel k : Nat) (σ : St F) (n i : Nat)
+    (hrun : σ.state = .running)
+    (hloc : σ.loc = { line := some n, idx := i }) (hbp : σ.bp = none) (hnum : numbered σ) :
+    sameModOut σ.out [.brk (some n)]
+      ((do continueEvaluating fuel; contTurns fuel k) σ)
+      ((do (do breakAtCurrentLocation; startEvaluating fuel "CONT".toList); contTurns fuel k) σ) := by
+  apply sameModOut_of_relRes
+  exact Proofs.Sim.at_bind (break_cont_related fuel σ n i hrun hloc hbp hnum)
+    fun _ t t' ht => (sim_contTurns fuel k _ _).run t t' ht
+
+/-- The `numbered` hypothesis cannot be dropped: line `100 RETURN` reached by a
+    GOSUB issued from the immediate line `: …`.  Undisturbed, RETURN goes back
+    into the immediate line and the interpreter keeps running it; after a
+    break and CONT the immediate line is gone and the interpreter goes idle. -/
+def cexState : St Unit :=
+  { lines := { map := [(100, [.kw .Return])], sorted := [100] }, imm := [.kw .Colon],
+    loc := { line := some 100, idx := 0 }, stack := [{ ret := { line := none, idx := 0 }, vars := [] }],
+    state := .running }
+
+def Res.st {α : Type} : Res F α → St F
+  | .ok _ s => s
+  | .err _ s => s
+
+theorem break_cont_not_transparent_in_general :
+    cexState.state = .running ∧ cexState.loc = { line := some 100, idx := 0 } ∧ cexState.bp = none ∧
+    (Res.st (continueEvaluating 1 cexState)).state = .running ∧
+    (Res.st ((do breakAtCurrentLocation; startEvaluating 1 "CONT".toList) cexState)).state = .idle := by
+  decide
+
 /-- Non-vacuity. -/
 example : let σ : St Unit := { loc := { line := some 10, idx := 3 }, state := .running,
                                stack := [{ ret := { line := some 5, idx := 1 }, vars := [] }] }
     σ.loc = { line := some 10, idx := 3 } ∧ σ.bp = none := by decide
+
+/-- Non-vacuity of `break_cont_transparent`: inside a subroutine and a FOR loop
+    of a numbered program. -/
+example : let σ : St Unit := { loc := { line := some 10, idx := 3 }, state := .running,
+                               stack := [{ ret := { line := some 5, idx := 1 }, vars := [] }],
+                               loops := [{ loc := { line := some 7, idx := 6 }, sym := ['I'], toV := (), stepV := () }] }
+    σ.state = .running ∧ σ.loc = { line := some 10, idx := 3 } ∧ σ.bp = none ∧ numbered σ := by
+  refine ⟨rfl, rfl, rfl, ?_, ?_⟩ <;> decide
 
 end Abasic.Props.C07
